@@ -59,6 +59,7 @@ structure Cfg where
   splits : List Bytes := []         -- engine region borders (tikv)
   etcdCompat : Bool := true
   ttl : Nat := 3600000              -- scanner TTL in model-clock units
+  shuffle : Bool := false           -- the engine hands its partitions over in reversed order (harness wrapper)
   deriving Repr
 
 structure Watcher where
@@ -428,10 +429,19 @@ def doGet (c : Cfg) (s : BState) (key : Bytes) (rev : Nat) : Nat × Option (Byte
   | .notFound _ => (s.committed, none)
   | .found v m => (max s.committed m, some (key, v, m))
 
-/-- `GetPartitions`: the advertised partition keys (raw engine borders). -/
+/-- `alignPartitionBorder`: an object key with a non-zero revision is moved back to the index key of
+its raw key; anything else (and anything shorter than magic + split + revision) is left alone. -/
+def alignBorder (b : Bytes) : Bytes :=
+  if b.length < 13 then b else
+  match decode b with
+  | .ok k r => if r != 0 then encode k 0 else b
+  | _ => b
+
+/-- `GetPartitions`: the advertised partition keys (engine borders aligned to raw keys). -/
 def doPartitions (c : Cfg) (key stop : Bytes) : List Bytes :=
   let ps := partitions c.splits (encode key 0) (encode stop 0)
-  ps.map (·.1) ++ (ps.getLast?.map (·.2)).toList
+  let ps := if c.shuffle then ps.reverse else ps
+  (ps.mapIdx (fun i p => if i == 0 then p.1 else alignBorder p.1)) ++ (ps.getLast?.map (·.2)).toList
 
 /-- `ListByStream(startKey, endKey, rev)` on internal keys: data batches (header revision, kvs)
 then exactly one terminator. -/
